@@ -526,6 +526,29 @@ func call(i *interpreter, caller *frame, callpos token.Pos, fn value, args []val
 	panic(fmt.Sprintf("cannot call %T", fn))
 }
 
+// messageOnlyCaller: packages whose fmt calls only ever build message text.
+func messageOnlyCaller(fr *frame) bool {
+	if fr == nil || fr.fn == nil {
+		return false
+	}
+	f := fr.fn
+	for f.Parent() != nil {
+		f = f.Parent()
+	}
+	if f.Pkg == nil {
+		if o := f.Origin(); o != nil && o.Pkg != nil {
+			f = o
+		} else {
+			return false
+		}
+	}
+	switch f.Pkg.Pkg.Path() {
+	case "github.com/go-openapi/errors", "github.com/go-openapi/validate":
+		return true
+	}
+	return false
+}
+
 // underTest reports whether the frame executes code of the repository under test.
 func (i *interpreter) underTest(fr *frame) bool {
 	if fr == nil || fr.fn == nil {
@@ -578,10 +601,10 @@ func callSSA(i *interpreter, caller *frame, callpos token.Pos, fn *ssa.Function,
 			return call(i, caller, callpos, st, args)
 		}
 	}
-	if fn.Parent() == nil && fn.Pkg != nil && fn.Pkg.Pkg.Path() == "fmt" && fmtEntry[fn.Name()] && fn.Signature.Recv() == nil && (fn.Name() == "Errorf" || !i.underTest(caller)) {
-		// error message text, and any text built by dependencies (go-openapi/errors,
-		// strconv, …); other formatting done by the code under test itself
-		// (header values, multipart dispositions) is interpreted faithfully
+	if fn.Parent() == nil && fn.Pkg != nil && fn.Pkg.Pkg.Path() == "fmt" && fmtEntry[fn.Name()] && fn.Signature.Recv() == nil && (fn.Name() == "Errorf" || messageOnlyCaller(caller)) {
+		// error values, and message text built by the error/validation
+		// dependencies; every other use of fmt (header values, multipart part
+		// headers, …) is interpreted faithfully
 		args = sanitizeFmtArgs(args)
 	}
 	if fn.Parent() == nil {
